@@ -91,7 +91,7 @@ CLAIMED = {
               "only as automatic locals (no heap, member, static, temporary, copy or move). By the C++ destructor guarantee "
               "the shape is then restored on every exit path, normal or exceptional, at every throw point. Also: declarations "
               "insert into the innermost scope only; saved parameters are cleared and conversion saves toggled exactly when "
-              "the call depth crosses 0. Not decided: value-level visibility of completed top-level declarations."),
+              "the call depth crosses 0. The optimizer removes a block's scope only when nothing evaluated in the block declares into it (C02 R2.2 re-decided; the eval()-declares-into-a-scopeless-block finding is listed for this property too). Not decided: value-level visibility of completed top-level declarations."),
         technique="interprocedural effect summaries over resolved call graph + who-may-call/who-may-write + RAII typestate (automatic-storage-only) rules",
         ref="DESIGN.md section 4 C09"),
     "C12": dict(
@@ -101,7 +101,7 @@ CLAIMED = {
               "front/back/pop/operator[]/erase(it)/insert(it), iterator * ++ --, std::advance and built-in subscript is "
               "dominated by a test on the operated object whose failing arm throws; positions begin()+n are used by erase "
               "only under 0 <= n < distance and by insert only under 0 <= n <= distance (exact bounds, no off-by-one). "
-              "Not decided: step-by-step agreement of results with a list/dict/str model (holds by construction where the "
+              "Key lookups: a value is handed out through an iterator from find() only under != end(), through one from lower_bound()/upper_bound() only with a key-equivalence test as well; the library has no such site today, so the matcher is exercised on a fixture (fixtures/c12_lookup.cpp) on every run and must give the expected verdicts. Not decided: step-by-step agreement of results with a list/dict/str model (holds by construction where the "
               "std member itself is bound); structural modification during iteration is excluded by the property."),
         technique="who-may-bind + check-dominates-use rules (structured dominance, comparison-fact extraction) over all template instantiations",
         ref="DESIGN.md section 4 C12"),
@@ -160,7 +160,7 @@ CLAIMED = {
               "the insertion into the used-file set lie inside one uninterrupted critical section of the use mutex, "
               "evaluation happens only under `count == 0`, the nested include's own file_not_found_error is rethrown, and "
               "paths are tried in configured order; (4) the parser entry consumes input before parsing only under the '#!' "
-              "test. Not decided: equality of eval_file(path) and eval(content) beyond 'the same bytes reach the parser'."),
+              "test. the use-path and module-path lists keep the configured order (the initialiser hands the given vector through unchanged; later mutations add single elements only). Not decided: equality of eval_file(path) and eval(content) beyond 'the same bytes reach the parser'."),
         technique="abstract interpretation over file-length classes (linear forms + stream typestate), dominance rules, critical-section rule",
         ref="DESIGN.md section 4 C19"),
     "C13": dict(
@@ -275,7 +275,7 @@ CLAIMED = {
               "for, ranged-for, switch, case, default, try and class evaluate their children under their own scope guard and "
               "functions run in a new frame; assignment evaluates the right operand first, first assignment and `var x = e` "
               "store clone_if_necessary(e), `:=` rebinds without copying; lambda captures are evaluated at creation and owned "
-              "by the callable. clone_if_necessary clears the is-a-temporary mark on the path that does not copy, so the next declaration or assignment that receives the stored value does copy it; overload ordering (function_less_than) evaluated as a decision table on 12 scenarios: guarded before unguarded script functions, typed C++ before script functions, non-const before const, specific before catch-all. a script function's body is entered only under a passed arity/type match and a guard that returned true on the same arguments (guard_error otherwise); Param_Types::match interpreted on one parameter over 12 combinations of its tests accepts exactly untyped, script object of the named class, exact C++ type, convertible C++ type (marked for conversion). script classes: method and attribute wrappers call their body only for objects of their class (type-name match interpreted as a table), `def C::C` builds the constructor wrapper, which creates the object, passes it first followed by the arguments in order and returns it. Not decided: agreement with a reference interpreter on generated programs; values."),
+              "by the callable. clone_if_necessary clears the is-a-temporary mark on the path that does not copy, so the next declaration or assignment that receives the stored value does copy it; overload ordering (function_less_than) evaluated as a decision table on 12 scenarios: guarded before unguarded script functions, typed C++ before script functions, non-const before const, specific before catch-all. a script function's body is entered only under a passed arity/type match and a guard that returned true on the same arguments (guard_error otherwise); Param_Types::match interpreted on one parameter over 12 combinations of its tests accepts exactly untyped, script object of the named class, exact C++ type, convertible C++ type (marked for conversion). script classes: method and attribute wrappers call their body only for objects of their class (type-name match interpreted as a table), `def C::C` builds the constructor wrapper, which creates the object, passes it first followed by the arguments in order and returns it. The copy registered for a built-in container of values must clone element by element (a Boxed_Value copy shares the object): fails for Vector, Map, Map_Pair and Pair on the current tree - four listed known findings with a replay (`var b = a; b[0] = 9` changes a). Not decided: agreement with a reference interpreter on generated programs; values."),
         technique="table extraction (operator groups, precedence order, node kind per level, recursion level per operand) and shape rules over eval_internal bodies (conditional evaluation, handler placement, scope guards, evaluation order)",
         ref="DESIGN.md section 4 C03"),
     "C11": dict(
